@@ -29,6 +29,24 @@ fn gen_named_lp(rng: &mut ChaCha8Rng) -> LmSpec {
             r.name = format!("n{i}");
         }
     }
+    // one model in eight lives in other units: objective in millionths, or rows in millions
+    match rng.gen_range(0..16) {
+        0 => {
+            for c in spec.obj.iter_mut() {
+                *c *= 1e-6;
+            }
+            spec.offset *= 1e-6;
+        }
+        1 => {
+            for r in spec.rows.iter_mut() {
+                for a in r.a.iter_mut() {
+                    *a *= 1e6;
+                }
+                r.b *= 1e6;
+            }
+        }
+        _ => {}
+    }
     // bounded boxes make an optimum likely
     for (_, t) in spec.vars.iter_mut() {
         if rng.gen_bool(0.6) {
@@ -282,7 +300,14 @@ impl Driver for C20 {
                         let reported = json!(prices.iter().map(|(n, p)| format!("{n}: {p}")).collect::<Vec<_>>());
                         let mut bad = false;
                         // interior-point duals are accurate relative to the largest price of the model
-                        let price_scale = slopes.iter().map(|s| to_f64(s.as_ref().unwrap()).abs()).fold(1.0f64, f64::max);
+                        // (1e-5 times the largest exact price, at least 1e-5)
+                        let largest = slopes.iter().map(|s| to_f64(s.as_ref().unwrap()).abs()).fold(0.0f64, f64::max);
+                        // tiny-price models: the interior-point residue (about 2e-7 absolute) is of the size of the
+                        // prices themselves, so only a coarse comparison (30% of the largest price) is possible there
+                        let price_scale = if largest > 0.0 && largest < 1e-4 { (0.3e5 * largest).max(0.03) } else { largest.max(1.0) };
+                        if largest > 0.0 && largest < 1e-4 {
+                            out.tag("tiny-price-model");
+                        }
                         let pre = if *which == "linear-model" { None } else { compiled_differs(&spec) };
                         // unnamed rows report none; nothing but the model's named rows is listed
                         for (n, _) in &prices {
@@ -350,7 +375,7 @@ impl Driver for C20 {
         Some((format!("never-returns({})", c.kind), format!("worker ended with {}", c.kind)))
     }
     fn rule(&self) -> String {
-        "continuous LPs (<=5 variables, <=5 rows, named and unnamed rows, <=, >= and = rows, min and max, offsets, free / bounded / half-bounded variables). The exact rational LP solver computes the optimum and, for every row, the four difference quotients of the optimal value for right-hand side changes of +-1/8 and +-1/16; a model is used only when all four coincide for every row (value differentiable in every right-hand side: the dual solution is unique). Three doors: solve_real_lp_problem_clarabel on the LinearModel, ModelBuilder::solve_with(Clarabel) + shadow_price(name), source text through RoocSolver. Every named row must carry a price equal to the exact slope within 1e-5 of the model's largest price (inactive rows: 0), no price may be listed for an unnamed or unknown row. non-trivial = distinct (door, model) with all prices confirmed".into()
+        "continuous LPs (<=5 variables, <=5 rows, named and unnamed rows, <=, >= and = rows, min and max, offsets, free / bounded / half-bounded variables). The exact rational LP solver computes the optimum and, for every row, the four difference quotients of the optimal value for right-hand side changes of +-1/8 and +-1/16; a model is used only when all four coincide for every row (value differentiable in every right-hand side: the dual solution is unique). Three doors: solve_real_lp_problem_clarabel on the LinearModel, ModelBuilder::solve_with(Clarabel) + shadow_price(name), source text through RoocSolver. Every named row must carry a price equal to the exact slope within 1e-5 of the model's largest price (at least 1e-5 absolute); one model in eight has its objective scaled by 1e-6 or its rows by 1e6 so that genuine prices of 1e-6 occur - there the comparison is coarse: within 30% of the largest price and never finer than 3e-7, enough to see a price that was dropped, zeroed or flipped (inactive rows: 0), no price may be listed for an unnamed or unknown row. non-trivial = distinct (door, model) with all prices confirmed".into()
     }
     fn thresholds(&self, tier: Tier) -> Thresholds {
         let s = tier.pick(4, 40);
@@ -371,6 +396,7 @@ impl Driver for C20 {
                 ("linear-model:all-prices-agree", 800 * s),
                 ("builder:all-prices-agree", 300 * s),
                 ("text:all-prices-agree", 300 * s),
+                ("tiny-price-model", 20 * s),
             ],
             min_nontrivial: 1500 * s,
         }
